@@ -1276,6 +1276,10 @@ class SCCheck:
 
     def __init__(self, prop):
         self.prop = prop
+        # (native_cancel = asyncio.timeout around / inside scopes: C05 programs only; native Task.cancel(): C01 only)
+        self.fault_kinds = [k for k in self.fault_kinds if k != "native_cancel" or prop == "C05"]
+        if prop == "C01":
+            self.fault_kinds += ["native_task_cancel", "native_task_cancel_repeated", "native_cancel_during_group_exit"]
         self.budgets = {"quick": (500_000, 100), "thorough": (20_000_000, 1500)}
         self.rule_text = (
             "cases = seeded task-tree programs (statements: checkpoint, sleep, event wait/set, nested cancel scopes "
